@@ -47,9 +47,11 @@ pub enum MI {
     GhostNoDefault, // ghost: S-only, needs `..update` on From (or only Into kinds)
     GhostOwned,  // ghost_owned({M}) + struct-level ghosts_owned(slot: {M2})
     GhostRef,
+    /// `map(slot, ~ + M)` for the infallible kinds and `try_map(slot, ~ + M2)` for the fallible ones
+    FalliblePair,
 }
 
-pub const MENU_FULL: &[MI] = &[MI::Plain, MI::Rename, MI::ExprTilde, MI::Ghost, MI::RenameExpr, MI::AtPair, MI::AsType, MI::AsTypeRename, MI::GhostNoDefault, MI::GhostOwned, MI::GhostRef];
+pub const MENU_FULL: &[MI] = &[MI::Plain, MI::Rename, MI::ExprTilde, MI::Ghost, MI::RenameExpr, MI::AtPair, MI::AsType, MI::AsTypeRename, MI::GhostNoDefault, MI::GhostOwned, MI::GhostRef, MI::FalliblePair];
 pub const MENU_SMALL: &[MI] = &[MI::Plain, MI::Rename, MI::ExprTilde, MI::Ghost];
 
 impl MI {
@@ -66,13 +68,14 @@ impl MI {
             MI::GhostNoDefault => "ghost-nodefault",
             MI::GhostOwned => "ghost_owned",
             MI::GhostRef => "ghost_ref",
+            MI::FalliblePair => "fallible-pair",
         }
     }
     pub fn is_ghost(self) -> bool {
         matches!(self, MI::Ghost | MI::GhostNoDefault)
     }
     fn has_rename(self) -> bool {
-        matches!(self, MI::Rename | MI::RenameExpr | MI::AsTypeRename | MI::AtPair)
+        matches!(self, MI::Rename | MI::RenameExpr | MI::AsTypeRename | MI::AtPair | MI::FalliblePair)
     }
 }
 
@@ -364,6 +367,10 @@ impl SCase {
                     f.attrs.push(Instr::new("ghost_owned", None, &format!("{{{}}}", mk)));
                     type_level_extra.push(Instr::new("ghosts_owned", None, &format!("{}: {{{}}}", m.name, m.marker2)));
                 }
+                MI::FalliblePair => {
+                    f.attrs.push(Instr::new("map", None, &format!("{}, ~ + {}", self.slot_name(m), mk)));
+                    f.attrs.push(Instr::new("try_map", None, &format!("{}, ~ + {}", self.slot_name(m), m.marker2)));
+                }
                 MI::GhostRef => {
                     f.attrs.push(Instr::new("ghost_ref", None, &format!("{{{}}}", mk)));
                     type_level_extra.push(Instr::new("ghosts_ref", None, &format!("{}: {{{}}}", m.name, m.marker2)));
@@ -462,12 +469,16 @@ impl SCase {
 
     /// M_sem: expected deriving-struct leaves after a From conversion of a counterpart holding `tv`
     pub fn expect_from(&self, tv: &[i64], owned: bool) -> Vec<i64> {
+        self.expect_from_f(tv, owned, false)
+    }
+    pub fn expect_from_f(&self, tv: &[i64], owned: bool, fallible: bool) -> Vec<i64> {
         self.members
             .iter()
             .enumerate()
             .map(|(k, m)| match m.mi {
                 MI::Plain | MI::Rename | MI::AsType | MI::AsTypeRename => tv[m.slot.unwrap()],
                 MI::ExprTilde | MI::RenameExpr | MI::AtPair => tv[m.slot.unwrap()] + m.marker,
+                MI::FalliblePair => tv[m.slot.unwrap()] + if fallible { m.marker2 } else { m.marker },
                 MI::Ghost => m.marker,
                 MI::GhostNoDefault => Self::SBASE + k as i64,
                 MI::GhostOwned => if owned { m.marker } else { tv[m.slot.unwrap()] },
@@ -477,6 +488,9 @@ impl SCase {
     }
     /// M_sem: expected counterpart leaves after Into (existing = None) or IntoExisting (existing = pre-values)
     pub fn expect_into(&self, sv: &[i64], owned: bool, existing: bool) -> Vec<i64> {
+        self.expect_into_f(sv, owned, existing, false)
+    }
+    pub fn expect_into_f(&self, sv: &[i64], owned: bool, existing: bool, fallible: bool) -> Vec<i64> {
         self.slots
             .iter()
             .enumerate()
@@ -486,6 +500,7 @@ impl SCase {
                     match m.mi {
                         MI::Plain | MI::Rename | MI::AsType | MI::AsTypeRename => sv[k],
                         MI::ExprTilde | MI::RenameExpr | MI::AtPair => sv[k] + m.marker,
+                        MI::FalliblePair => sv[k] + if fallible { m.marker2 } else { m.marker },
                         MI::GhostOwned => if owned { m.marker2 } else { sv[k] },
                         MI::GhostRef => if !owned { m.marker2 } else { sv[k] },
                         MI::Ghost | MI::GhostNoDefault => unreachable!(),
@@ -546,8 +561,8 @@ impl SCase {
                 let f = if fallible { "try_" } else { "" };
                 let wrap = |e: String| if fallible { format!("Ok::<_, Er>({})", e) } else { e };
                 // From owned / ref
-                let ef_o = self.s_literal(sn, &self.expect_from(&tv, true));
-                let ef_r = self.s_literal(sn, &self.expect_from(&tv, false));
+                let ef_o = self.s_literal(sn, &self.expect_from_f(&tv, true, fallible));
+                let ef_r = self.s_literal(sn, &self.expect_from_f(&tv, false, fallible));
                 if fallible {
                     let _ = writeln!(o, "  {{ let t: {tty} = {tlit}; r.eq(\"{f}from_owned/{a}\", &<{sn} as TryFrom<{tty}>>::try_from(t), &{}); }}", wrap(ef_o));
                     let _ = writeln!(o, "  {{ let t: {tty} = {tlit}; r.eq(\"{f}from_ref/{a}\", &<{sn} as TryFrom<&{tty}>>::try_from(&t), &{}); }}", wrap(ef_r));
@@ -556,8 +571,8 @@ impl SCase {
                     let _ = writeln!(o, "  {{ let t: {tty} = {tlit}; r.eq(\"from_ref/{a}\", &<{sn} as From<&{tty}>>::from(&t), &{}); }}", ef_r);
                 }
                 // Into owned / ref
-                let ei_o = self.cp_literal(tn, &self.expect_into(&sv, true, false));
-                let ei_r = self.cp_literal(tn, &self.expect_into(&sv, false, false));
+                let ei_o = self.cp_literal(tn, &self.expect_into_f(&sv, true, false, fallible));
+                let ei_r = self.cp_literal(tn, &self.expect_into_f(&sv, false, false, fallible));
                 if fallible {
                     let _ = writeln!(o, "  {{ let s = {slit}; r.eq(\"{f}owned_into/{a}\", &<{sn} as TryInto<{tty}>>::try_into(s), &{}); }}", wrap(ei_o));
                     let _ = writeln!(o, "  {{ let s = {slit}; r.eq(\"{f}ref_into/{a}\", &<&{sn} as TryInto<{tty}>>::try_into(&s), &{}); }}", wrap(ei_r));
@@ -566,8 +581,8 @@ impl SCase {
                     let _ = writeln!(o, "  {{ let s = {slit}; r.eq(\"ref_into/{a}\", &<&{sn} as Into<{tty}>>::into(&s), &{}); }}", ei_r);
                 }
                 // IntoExisting owned / ref
-                let ee_o = self.cp_literal(tn, &self.expect_into(&sv, true, true));
-                let ee_r = self.cp_literal(tn, &self.expect_into(&sv, false, true));
+                let ee_o = self.cp_literal(tn, &self.expect_into_f(&sv, true, true, fallible));
+                let ee_r = self.cp_literal(tn, &self.expect_into_f(&sv, false, true, fallible));
                 if fallible {
                     let _ = writeln!(o, "  {{ let s = {slit}; let mut o: {tty} = {prelit}; let res = <{sn} as TryIntoExisting<{tty}>>::try_into_existing(s, &mut o); r.eq(\"{f}owned_into_existing/{a}\", &res.map(|_| o), &{}); }}", wrap(ee_o));
                     let _ = writeln!(o, "  {{ let s = {slit}; let mut o: {tty} = {prelit}; let res = <&{sn} as TryIntoExisting<{tty}>>::try_into_existing(&s, &mut o); r.eq(\"{f}ref_into_existing/{a}\", &res.map(|_| o), &{}); }}", wrap(ee_r));
